@@ -314,7 +314,19 @@ _TASK_CACHE = {}
 
 
 def histex_task(args):
-    """Pool task: (module name, graph key, history) -> expand()."""
+    """Pool task, run in a freshly forked child of the worker so that no process-global state leaks between tasks."""
+    from mc.core import isolated
+
+    kind, val = isolated(_histex_task, args)
+    if kind == "ok":
+        return val
+    modname, key, history = args
+    what = "worker-process-died" if kind == "died" else "task-timeout"
+    return [(0, "lost-%s" % repr(history), [{"finding": what, "msg": "%s (%s) while expanding history %s of graph %s" % (what, val, list(history), list(key))}], "exc")]
+
+
+def _histex_task(args):
+    """(module name, graph key, history) -> expand()."""
     import importlib
 
     modname, key, history = args
